@@ -245,6 +245,11 @@ func cmdCheck(repo, prop, tier string) int {
 	if nr, ok := notReached[prop]; ok {
 		assumptions = append([]string{"NOT REACHED by this check: " + nr}, assumptions...)
 	}
+	for _, fnn := range cs.order {
+		if cs.fns[fnn].Flags["trusted"] != "" {
+			assumptions = append(assumptions, "TRUSTED STUB (contract assumed, body not verified): "+fnn)
+		}
+	}
 	var um []string
 	for k, v := range unmodelled {
 		um = append(um, fmt.Sprintf("%s x%d", k, v))
